@@ -434,6 +434,9 @@ def family_flags(pre, op):
                 x = pre.extent(anc)
                 cont = anc
         if isinstance(cont, ast.arguments):  # the container is the parenthesized parameter list of the def
+            lam = next((n for n in ast.walk(pre.tree) if getattr(n, 'args', None) is cont and isinstance(n, ast.Lambda)), None)
+            if lam is not None:  # ... or everything between 'lambda' and the body of a Lambda (its head)
+                x = (lam.lineno, pre.b2c(lam.lineno, lam.col_offset), lam.body.lineno, pre.b2c(lam.body.lineno, lam.body.col_offset))
             owner = next((n for n in ast.walk(pre.tree) if getattr(n, 'args', None) is cont and isinstance(n, (ast.FunctionDef, ast.AsyncFunctionDef))), None)
             if owner is not None:
                 start = (owner.lineno, pre.b2c(owner.lineno, owner.col_offset))
